@@ -431,6 +431,19 @@ fn get_bar_region<H: Hal, T, C: ConfigurationAccess>(
     device_function: DeviceFunction,
     struct_info: &VirtioCapabilityInfo,
 ) -> Result<NonNull<T>, VirtioPciError> {
+    // The register after a 64-bit BAR holds the upper half of its address, and isn't a BAR itself.
+    let mut bar_index = 0;
+    while bar_index < struct_info.bar {
+        let two_entries = matches!(
+            root.bar_info(device_function, bar_index),
+            Ok(Some(info)) if info.takes_two_entries()
+        );
+        bar_index += if two_entries { 2 } else { 1 };
+    }
+    if bar_index != struct_info.bar {
+        return Err(VirtioPciError::BarNotAllocated(struct_info.bar));
+    }
+
     let bar_info = root
         .bar_info(device_function, struct_info.bar)?
         .ok_or(VirtioPciError::BarNotAllocated(struct_info.bar))?;
